@@ -42,7 +42,7 @@ func init() {
 	hx.Register(&hx.Prop{
 		ID:    "C11",
 		Level: "exploration",
-		Rule: "writes: 6 write APIs (object and legacy) x efivars directory {default, /x/y, rel/dir} x variable definitions (25 predefined + {A, Boot0001, 64-char name} x 3 GUIDs x all 256 attribute masks) x values {empty db, 3-entry db, raw 0/1/4096 bytes}, " +
+		Rule: "writes: 6 write APIs (object and legacy) x efivars directory {default, /x/y, rel/dir, names containing % and other characters} x variable definitions (25 predefined + {A, Boot0001, 64-char name} x 3 GUIDs x all 256 attribute masks) x values {empty db, 3-entry db, raw 0/1/4096 bytes}, " +
 			"each on a fresh recording filesystem; oracle: the recorded trace is one OpenFile(<dir>/<Name>-<lower-case GUID>, O_WRONLY|O_CREATE [|O_APPEND iff mask&0x40]) and exactly one Write of LE32(mask)||value on it, no other mutating call; under an injected write failure or short write: an error, exactly one write attempt, no other mutating call (no Remove/Rename/Truncate), and a later write on the same wrapper is again exactly one full write. " +
 			"reads: stored file {absent, 0..3 bytes, 4 bytes, 4+value} x all 256 stored masks x all 256 required masks through GetVarWithAttributes/GetVar with a spy decoder, legacy readers, typed accessors; " +
 			"oracle: value after the first four bytes + stored mask when required is a subset of stored, wrong-attributes error without decoding otherwise, errors for absent/short files. non-trivial = the oracle's positive branch (trace fully matched / value returned or wrong-attributes error) was reached; distinct = distinct (api, dir, definition, value) or (file, stored, required)",
@@ -55,7 +55,7 @@ func init() {
 			for i := 0; i < 8; i++ {
 				u = append(u, "read#"+strconv.Itoa(i))
 			}
-			return append(u, "legacyread", "typed", "short-write")
+			return append(u, "legacyread", "typed", "short-write", "real-directory")
 		},
 		Run:    c11Run,
 		Budget: dur(3*time.Minute, 15*time.Minute),
@@ -419,7 +419,9 @@ func c11Run(c *hx.Ctx, tier, unit string) {
 	switch {
 	case strings.HasPrefix(unit, "write#"):
 		api := strings.TrimPrefix(unit, "write#")
-		dirs := []string{"/sys/firmware/efi/efivars", "/x/y", "rel/dir"}
+		// "any efivars directory": also names with characters that mean something to Printf or to path
+		// cleaning when they end up in a format string or a joined path
+		dirs := []string{"/sys/firmware/efi/efivars", "/x/y", "rel/dir", "/mnt/esp%20backup/efivars", "/x/%s-%d/%", "/a b/c\\d"}
 		defs := c11Defs(thorough)
 		vals := c11Values()
 		for _, dir := range dirs {
@@ -539,6 +541,8 @@ func c11Run(c *hx.Ctx, tier, unit string) {
 				}
 			}
 		}
+	case unit == "real-directory":
+		c11RealFS(c)
 	case unit == "legacyread":
 		for stored := 0; stored < 256; stored++ {
 			for _, n := range []int{-1, 0, 1, 3, 4, 11} {
